@@ -64,6 +64,9 @@ pub struct GenParams {
     pub chase_in_reply: bool,
     /// servers list AAAA before A in the additional section
     pub v6_glue_first: bool,
+    /// referrals carry glue of one family only (4 / 6; 0 = both), although the hosts'
+    /// own zones hold both: a parent with less glue than the child has addresses
+    pub glue_family: u8,
     /// protocol mode of the resolver under test in the checks that do not enumerate
     /// the modes themselves (C07): 0 only-v4, 1 prefer-v4, 2 prefer-v6, 3 only-v6
     pub resolver_mode: u8,
@@ -80,6 +83,7 @@ impl GenParams {
             send_additional: true,
             chase_in_reply: false,
             v6_glue_first: false,
+            glue_family: 0,
             resolver_mode: 0,
             families: vec![Family::V4; depth + 2],
         }
@@ -88,7 +92,7 @@ impl GenParams {
         format!(
             "depth={} styles={:?} ns={:?} additional={} chase={} v6first={} families={:?}{}",
             self.depth, self.styles, self.ns_count, self.send_additional, self.chase_in_reply, self.v6_glue_first, self.families,
-            ["", " resolver=prefer-v4", " resolver=prefer-v6", " resolver=only-v6"][(self.resolver_mode as usize).min(3)]
+            format!("{}{}", ["", " resolver=prefer-v4", " resolver=prefer-v6", " resolver=only-v6"][(self.resolver_mode as usize).min(3)], match self.glue_family { 4 => " glue=A-only", 6 => " glue=AAAA-only", _ => "" })
         )
     }
 }
@@ -325,6 +329,7 @@ pub fn build(p: &GenParams) -> Universe {
         send_additional: p.send_additional,
         chase_in_reply: p.chase_in_reply,
         v6_glue_first: p.v6_glue_first,
+        glue_family: p.glue_family,
         description: p.describe(),
         forwarder: Some(IpAddr::V4(Ipv4Addr::new(10, 9, 9, 9))),
         silent: Default::default(),
